@@ -1239,7 +1239,38 @@ func c13ClientX(e *Env, forC14 bool, forced *c13Forced) {
 		e.Probe("term:" + term)
 		switch term {
 		case "peer-eof":
-			w.sc.EndRead(io.EOF, false)
+			burst := 0
+			if !w.sc.Closed() && t.Chance(1, 2) {
+				// the peer's last words: a burst of answers in one segment, then it hangs up;
+				// what arrived before the end is dispatched (CloseNotify is active: the watchdog asked for it)
+				w.mu.Lock()
+				before := len(w.enters)
+				w.mu.Unlock()
+				var seg []byte
+				burst = t.Range(2, 4)
+				for i := 0; i < burst; i++ {
+					seg = append(seg, appAnswer(800+i).Bytes()...)
+				}
+				w.sc.Deliver(seg)
+				if t.Chance(1, 2) {
+					w.sc.EndReadWithData(io.EOF)
+				} else {
+					w.sc.EndRead(io.EOF, false)
+				}
+				e.Quiesce()
+				w.mu.Lock()
+				got := len(w.enters) - before
+				w.mu.Unlock()
+				e.Probe("burst-then-hang-up")
+				if got != burst && !w.sc.Closed() || got > burst {
+					e.Fail("C14/messages-lost-duplicated-or-reordered", "the peer sent %d answers in one segment and hung up; the application handler ran %d time(s)", burst, got)
+				} else if got != burst {
+					// (the client had closed the connection itself meanwhile: nothing is owed)
+					_ = got
+				}
+			} else {
+				w.sc.EndRead(io.EOF, false)
+			}
 		case "rst":
 			w.sc.EndRead(errSimReset, true)
 		case "local-close":
